@@ -253,6 +253,10 @@ def _connection_task(srv):
         sel = _idx(seq, lambda e: e.kind == "call" and e.callee.endswith("::poll") and "Select<" in e.callee)
         gs = _idx(seq, lambda e: e.kind == "call" and re.search(r"::graceful_shutdown$", e.callee))
         aw = _idx(seq, lambda e: e.kind == "call" and e.callee.endswith("::poll") and "Select<" not in e.callee)
+        # what is awaited after the stop is the connection itself - not something wrapped around it that may give up first (a timeout, a select with a timer)
+        wrapped = [seq[i].callee for i in aw if not re.match(r"^<(Pin<&mut )*(hyper_util::server::conn::auto::)?UpgradeableConnection<", seq[i].callee)]
+        if wrapped:
+            viol.append(pc)
         if gs:
             reach["stopping"].append(pc)
         if tok:
